@@ -220,7 +220,7 @@ def run_one(rec, G, tag, rounds, trace=False):
 
 def run_shard(rec):
     quick = rec.tier == 'quick'
-    rec.deadline = time.time() + (60 if quick else 900)
+    rec.deadline = time.time() + (300 if quick else 900)
     idx = 0
     rounds = 250 if quick else 1200
     for tag, rules in curated():
